@@ -281,6 +281,16 @@ pub fn bankrupt(e: &Env) -> Store {
     s
 }
 
+/// bank 1 (u1's collateral) is forged into a staked-collateral bank (pool exchange rate ~1.05), bank 0
+/// (u1's debt) carries the SOL tag such banks may be borrowed against
+pub fn staked_prep(e: &Env) -> Store {
+    let mut s = e.s.clone();
+    let supply = u64::from_le_bytes(s.get(&e.w.banks[1].mint).unwrap().data[36..44].try_into().unwrap());
+    world::make_staked_bank(&mut s, &e.w, 1, (supply as u128 * 105 / 100) as u64 + 1_000_000_000);
+    world::edit_bank(&mut s, &e.w.banks[0].key, |b| b.config.asset_tag = marginfi_type_crate::constants::ASSET_TAG_SOL);
+    s
+}
+
 pub fn goldens() -> Vec<Golden> {
     let mut v: Vec<Golden> = vec![];
     let user = Kind::User { receivership_ok: false };
@@ -319,6 +329,44 @@ pub fn goldens() -> Vec<Golden> {
         banks: vec![0, 1],
     });
     v.push(user_action(Action::Transfer { u: 0 }, 0, user, "transfer_to_new_account", vec![], Box::new(base)));
+    v.push(Golden {
+        name: "transfer_to_new_account_pda",
+        role: Role::Authority(0),
+        kind: user,
+        subject: Some(0),
+        prep: Box::new(base),
+        make: Box::new(|e, _s, signer| {
+            let w = &e.w;
+            let (_k, i) = ix::transfer_to_new_account_pda(w.group, w.users[0].account, signer, w.payer, key("G:new_authority"), w.fee_wallet, 3, None);
+            Tx::one(i, &[signer, w.payer])
+        }),
+        banks: vec![],
+    });
+    v.push(Golden {
+        name: "marginfi_account_initialize_pda",
+        role: Role::Anyone,
+        kind: Kind::Open,
+        subject: None,
+        prep: Box::new(base),
+        make: Box::new(|e, _s, signer| {
+            let (_k, i) = ix::account_initialize_pda(e.w.group, signer, e.w.payer, 9, None);
+            one_ix(i, &[signer, e.w.payer])
+        }),
+        banks: vec![],
+    });
+    // a borrow whose health check reads a staked-collateral bank (three oracle accounts)
+    v.push(Golden {
+        name: "lending_account_borrow(staked collateral)",
+        role: Role::Authority(1),
+        kind: user,
+        subject: Some(1),
+        prep: Box::new(staked_prep),
+        make: Box::new(|e, s, signer| {
+            let a = Action::Borrow { u: 1, b: 0, amt: 1_000_000 };
+            Tx::one(act::user_ix(&e.w, s, &a, signer).unwrap(), &[signer])
+        }),
+        banks: vec![0, 1],
+    });
     v.push(Golden {
         name: "marginfi_account_close",
         role: Role::Authority(0),
